@@ -427,10 +427,34 @@ def make_ops(cfg):
         def spec(ref, x):
             # documented: a value outside the new bounds is replaced by the default (midpoint)
             ref.bounds["var"] = (lo, hi, "cc")
-            ref.pending_default = (in_bounds(ref.var, ref.bounds["var"]), (lo + hi) / 2.0)
+            ref.pending_default = (in_bounds(ref.var, ref.bounds["var"]), lambda r_: r_.set_var((lo + hi) / 2.0))
             return []
 
         return do, spec
+
+    if d >= 2 and not cfg.get("latlon"):
+
+        @op("bounds_anis", [])
+        def _():
+            alo, ahi = 0.25, 4.0
+
+            def do(m, x):
+                m.set_arg_bounds(anis=[alo, ahi])  # two-element bounds: closed interval
+
+            def spec(ref, x):
+                # documented: if any ratio is outside the new bounds, all ratios are replaced by the default (midpoint)
+                ref.bounds["anis"] = (alo, ahi, "cc")
+                inb = []
+                for a in ref.anis:
+                    inb += in_bounds(a, ref.bounds["anis"])
+
+                def dflt(r_):
+                    r_.anis = r_._fix_anis([(alo + ahi) / 2.0] * (r_.dim - 1))
+
+                ref.pending_default = (inb, dflt)
+                return []
+
+            return do, spec
 
     return ops
 
@@ -540,7 +564,7 @@ def run_reference(cfg, seq, vals, xs, fns, decide):
         if ref.pending_default is not None:
             inb, dflt = ref.pending_default
             if not decide(inb):
-                ref.set_var(dflt)
+                dflt(ref)
     return ref, adm
 
 
@@ -585,7 +609,7 @@ def job_history(cfgname, seq, tier):
             if pend is not None:
                 inb, dflt = pend
                 if not bool(sym.SymBool(cz3(inb))):
-                    ref.set_var(dflt)
+                    dflt(ref)
             admissible.append(adm)
         st = public_state(m)
         # fresh model constructed directly with the resulting (reference) values
@@ -662,6 +686,9 @@ FACTOR_OPS = ["len_scale", "len_scale_list", "opt_len_low", "rescale", "var", "v
 QUICK_PAIR_CONFIGS = ("plain2", "latlon_t", "stable2")
 
 
+JOBS_PER_PROCESS = 12  # hundreds of sub-second jobs: fixed batches of consecutive jobs share one process
+
+
 def jobs(tier, seed):
     js = []
     for cfgname, cfg in CONFIGS.items():
@@ -673,7 +700,10 @@ def jobs(tier, seed):
             if cfgname == "tplgau2":
                 seqs += list(itertools.product([n for n in names if n in ("len_scale", "opt_len_low", "var")], repeat=2))
             elif cfgname in QUICK_PAIR_CONFIGS:
-                seqs += list(itertools.product(names, repeat=2))
+                seqs += list(itertools.product([n for n in names if n != "bounds_anis"], repeat=2))
+            if "bounds_anis" in names:
+                # list-valued parameter against finite closed bounds (several ratios, only some outside)
+                seqs += [("bounds_anis", n) for n in names if n in ("anis_list", "anis_scalar", "len_scale_list", "len_scale_list2", "len_scale")] + [(n, "bounds_anis") for n in names if n in ("anis_list", "len_scale_list")]
         else:
             seqs += list(itertools.product(names, repeat=2))
             if cfgname != "tplgau2":
@@ -744,7 +774,7 @@ def replay_history(inputs):
             if not adm:
                 return False, f"step {k} ({name}={xs[k]}) accepted an inadmissible value; var={m.var} len_scale={m.len_scale} anis={m.anis} nugget={m.nugget}"
             if pend is not None and not cholds(pend[0]):
-                ref.set_var(pend[1])
+                pend[1](ref)
     except ZeroDivisionError:
         return True, "division by zero in the witness (outside the reals reading)"
     problems = []
